@@ -28,10 +28,39 @@ def run_harness(path, playback=False):
 QUICK = {'C14'}
 
 
-def run(prop, tier, results):
-    if prop not in HARNESSES or (tier != 'thorough' and prop not in QUICK):
-        return []
+# bounded scenario sweeps that run in EVERY tier because the function they exercise is only an assumed contract for Verus
+# (a change inside it cannot fail a deductive obligation): labelled bounded, never counted as proved
+ALWAYS_SCENARIOS = {
+    'C16': [('witness/C16/sweep_start_ok.rs', 'ConnectionOptions::make_start_ok (assumed contract in unit handshake): every mechanisms / locales string of length <= 7 over a 3-letter alphabet against the assumed contract, plus the real PLAIN / EXTERNAL mechanisms on hand-picked server strings')],
+}
+
+
+def run_scenarios(prop):
+    import witness
     res = []
+    for path, what in ALWAYS_SCENARIOS.get(prop, []):
+        w = witness.run([prop], only=[path])
+        entry = {'name': 'scenario:' + path, 'what': what, 'bounded': True, 'wall_s': w.get('wall_s'), 'backends': ['cargo-test (bounded)'],
+                 'obligations': 0, 'discharged': 0, 'ran': w.get('ran'), 'passed': w.get('passed'), 'samples': ['bounded scenario sweep %s: %s' % (path, what)],
+                 'trusted': ['bounded: covers only the stated input space']}
+        if w.get('failed'):
+            f0 = w['failed'][0]
+            entry['verdict'] = 'failed'
+            entry['violations'] = [{'unit': 'scenario', 'fn': path, 'key': 'bounded:' + f0['test'], 'kind': 'bounded-scenario', 'label': None, 'props': [prop],
+                                    'message': 'bounded scenario sweep fails on the real code', 'spans': [], 'src': None, 'rendered': f0['output']}]
+        elif w.get('inconclusive') or not w.get('ran'):
+            entry['verdict'] = 'inconclusive'
+            entry['undecided'] = ['scenario %s did not run: %s' % (path, w.get('inconclusive'))]
+        else:
+            entry['verdict'] = 'passed (bounded)'
+        res.append(entry)
+    return res
+
+
+def run(prop, tier, results):
+    res = run_scenarios(prop)
+    if prop not in HARNESSES or (tier != 'thorough' and prop not in QUICK):
+        return res
     for path, what, bounded in HARNESSES[prop]:
         out, wall = run_harness(path)
         m = re.search(r'\*\* (\d+) of (\d+) failed', out)
